@@ -183,9 +183,16 @@ class _InMemoryResult(Result):
     self._lock = threading.Lock()
 
   def create_trial(
-      self, dna_fn: Callable[[], geno.DNA], group_id: str) -> Trial:
-    """Appends a trial to the result."""
+      self,
+      dna_fn: Callable[[], geno.DNA],
+      group_id: str,
+      reuse_pending: bool = False) -> Trial:
+    """Appends a trial to the result (or returns the group's pending trial)."""
     with self._lock:
+      if reuse_pending:
+        latest = self._latest_trial_per_group.get(group_id, None)
+        if latest is not None and latest.status == 'PENDING':
+          return latest
       if (self._max_num_trials is not None
           and self.next_trial_id() > self._max_num_trials):
         raise StopIteration()
@@ -387,9 +394,10 @@ class _InMemoryBackend(backend.Backend):
       raise StopIteration()
 
     # If current session is pending, always return current session.
-    trial = self._study.get_latest_trial(self._group_id)
-    if trial is None or trial.status != 'PENDING':
-      trial = self._study.create_trial(next_dna, self._group_id)
+    # The check and the creation happen under the study lock, so that workers
+    # of the same group never end up with two pending trials.
+    trial = self._study.create_trial(
+        next_dna, self._group_id, reuse_pending=True)
     return self._create_feedback(self._study, trial)
 
   @classmethod
